@@ -274,16 +274,20 @@ def observe(s, q, aq, rng, missing):
         hasf, hasm = rng.random() < 0.7, rng.random() < 0.5
         k = rng.choice([0, 1, 3])
 
-        how = rng.choice(["query", "results", "set"])
+        how = rng.choice(["query", "results", "results", "set"])
+        mhow = rng.choice(["query", "results", "set"])
+        flim, mlim = rng.choice([None, 1, 2]), rng.choice([None, 1, 2])     # a Results filter may come from a limited search
 
         def ff():
             kw = {}
             if hasf:
                 fq = world.to_query(afilt)
-                kw["filter"] = fq if how == "query" else (s.search(fq, limit=None) if how == "results"
+                kw["filter"] = fq if how == "query" else (s.search(fq, limit=flim) if how == "results"
                                                           else set(s.docs_for_query(fq)))
             if hasm:
-                kw["mask"] = world.to_query(amask)
+                mq = world.to_query(amask)
+                kw["mask"] = mq if mhow == "query" else (s.search(mq, limit=mlim) if mhow == "results"
+                                                         else set(s.docs_for_query(mq)))
             def mk():
                 r = s.search(q, limit=k or None, **kw)
                 return {"kind": "filtered", "path": "filter=%s mask=%s limit=%d" % (hasf, hasm, k), "hasfilt": hasf,
